@@ -171,12 +171,17 @@ Definition fstep (s : fsys) (t : tid) (c : nat) : sres fsys :=
         then SOk (fsetpc t (FRmdir2 mb) s1)
         else SOk (ffinish t mb ROk s1)
     | FRmdir2 mb =>
-        let s1 := fwith s (f_l1 s) (delN (k2_of (f_geo s) mb) (f_l2 s)) (f_mbd s) (f_idx s) in
-        if memN (k1_of (f_geo s) mb) (f_l1 s1) && l1_empty mb s1
-        then SOk (fsetpc t (FRmdir1 mb) s1)
-        else SOk (ffinish t mb ROk s1)
+        (* os.Remove refuses a directory that is no longer empty: removeDirIfEmpty then returns false *)
+        if l2_empty mb s then
+          let s1 := fwith s (f_l1 s) (delN (k2_of (f_geo s) mb) (f_l2 s)) (f_mbd s) (f_idx s) in
+          if memN (k1_of (f_geo s) mb) (f_l1 s1) && l1_empty mb s1
+          then SOk (fsetpc t (FRmdir1 mb) s1)
+          else SOk (ffinish t mb ROk s1)
+        else SOk (ffinish t mb ROk s)
     | FRmdir1 mb =>
-        SOk (ffinish t mb ROk (fwith s (delN (k1_of (f_geo s) mb) (f_l1 s)) (f_l2 s) (f_mbd s) (f_idx s)))
+        if l1_empty mb s
+        then SOk (ffinish t mb ROk (fwith s (delN (k1_of (f_geo s) mb) (f_l1 s)) (f_l2 s) (f_mbd s) (f_idx s)))
+        else SOk (ffinish t mb ROk s)
     | FVisit1 => SOk (visit_next1 t c (f_l1 s) [] s)
     | FVisit2 n1 r1 acc =>
         if memN n1 (f_l1 s)
